@@ -51,6 +51,7 @@ func runC08(r *Run) {
 			}
 		}
 		collect(tr)
+		fns = r.withPackageHelpers(fns)
 		r.checkSortKey(P, tr, fns)
 		// ... nor on the spelling of a number (1.0 / 1e0 / -0): every number goes through ParseFloat -> NumberToJSON
 		r.checkNumberRoute(P, fns)
